@@ -401,6 +401,9 @@ func genB(t *rapid.T) Case {
 		cp.Force = rapid.IntRange(0, 4).Draw(t, l+"_force") == 0
 		if rapid.IntRange(0, 2).Draw(t, l+"_hasfault") == 0 {
 			cp.Fault = genFault(t, l+"_fault")
+			// a failing copy with the referrers option is the trigger of the known finding gc-ran-while-failed-copy-still-writing
+			// (kept rare: behind it the completeness clause of the final Close cannot be judged)
+			cp.Referrers = rapid.IntRange(0, 5).Draw(t, l+"_faultref") == 0
 		} else {
 			cp.Referrers = rapid.IntRange(0, 3).Draw(t, l+"_referrers") == 0
 			cp.DigestTags = rapid.IntRange(0, 4).Draw(t, l+"_digesttags") == 0
